@@ -89,12 +89,31 @@ def reads_through(caller, callee, depth):
     return depth <= 6 and callee.path.endswith('portfolio/position.py') and callee.name != '__init__' and not _writes_self(callee)
 
 
+_CACHE_DONE = set()
+
+
 def single(ctx, prop, orc, case):
     ps = summarise(ctx, 'Position.' + prop, policy=reads_through, oracle=orc)
     if any(p.outcome != 'return' for p in ps) or not ps or len(ps) > 8:
         ctx.undecided('C03.S1', '%s returns a figure on every path in case "%s"' % (prop, case), ctx.fn('Position.' + prop).site(),
                       'paths: %s' % [p.describe()[:120] for p in ps][:4])
         return None
+    from ..lib import split_cache_paths, cache_invalidation
+    misses, hits, caches = split_cache_paths(ctx, ctx.fn('Position.' + prop), ps)
+    if caches and hits:
+        # the figure is kept once computed: the identities are decided on the computing paths; that a kept figure is still current is the invalidation clause
+        key_ = ('cache', prop)
+        if key_ not in _CACHE_DONE:
+            _CACHE_DONE.add(key_)
+            cache_invalidation(ctx, 'C03.S1', ctx.cls('Position'), caches, 'a kept P&L figure (%s) is dropped whenever the state it was computed from changes' % prop)
+        cache_locs = {loc for loc, _, _ in caches}
+        ps = misses
+        for p in ps:
+            if any(e.kind == 'write' and not e.d.get('local') and e.loc not in cache_locs for e in p.flat_events()):
+                ctx.violation('C03.S1', '%s is a pure read (case "%s")' % (prop, case), ctx.fn('Position.' + prop).site(), key='C03.S1|pure|%s' % prop)
+        if not ps:
+            return None
+        return [(frozenset((c, v) for c, v, _ in p.conds if not any(s_ in cache_locs for s_ in T.subterms(c))), p.value) for p in ps]
     for p in ps:
         if any(e.kind == 'write' and not e.d.get('local') for e in p.flat_events()):
             ctx.violation('C03.S1', '%s is a pure read (case "%s")' % (prop, case), ctx.fn('Position.' + prop).site(), key='C03.S1|pure|%s' % prop)
@@ -164,6 +183,10 @@ def s1_reads(ctx):
     allowed = {'buy_quantity', 'sell_quantity', 'avg_bought', 'avg_sold', 'buy_commission', 'sell_commission', 'current_price'}
     for prop in ('total_pnl', 'realised_pnl', 'unrealised_pnl', 'avg_price', 'market_value', 'net_quantity'):
         ps = summarise(ctx, 'Position.' + prop, policy=default_policy)
+        # a figure kept once computed: what matters is what the COMPUTING paths read (the kept slot itself is covered by the invalidation clause of S1)
+        from ..lib import split_cache_paths
+        ps, hits_, caches_ = split_cache_paths(ctx, ctx.fn('Position.' + prop), ps)
+        cache_roots = {root for _, root, _ in caches_} if hits_ else set()
         used = set()
         for p in ps:
             ts = [p.value] if p.value is not None else []
@@ -172,7 +195,7 @@ def s1_reads(ctx):
                 for x in T.subterms(t):
                     if x[0] == 'attr' and x[1] == V('self'):
                         used.add(x[2])
-        extra = used - allowed
+        extra = used - allowed - cache_roots
         ctx.require(not extra, 'C03.S1', '%s reads only the fill accumulators and the current price' % prop, ctx.fn('Position.' + prop).site(),
                     'also reads %s' % sorted(extra), key='C03.S1|reads|%s' % prop)
 
